@@ -1,6 +1,7 @@
 import VelaVerif.Spec.RewriteSem3
 import VelaVerif.Model.Rewrites3
 import VelaVerif.Props.C01Rewrites2
+import VelaVerif.Lemmas.Rewrites3
 /-!
 # C01 — the rewrites of `Model/Rewrites3.lean` preserve what the operator computes
 
@@ -252,11 +253,182 @@ theorem avgpool_lowering_eq_ref (H W C : Nat) (ifm : Nat → Nat → Nat → Int
   simp only [h1, h2, Int.zero_mul, Int.add_zero]
   rw [avgpool_round_away_eq_ref_signed _ _ hk]
 
+/-- **The integer relation the hardware computes.** `AwayZero` is not a hardware rounding mode: `weight_compressor` takes the
+    quantised multiplier of the scale `ifm_scale · (1 / (kh·kw)) / ofm_scale`, adds ONE to it, and the operator runs with NATURAL
+    rounding (add half, floor). For every multiplier `M` and shift `sh ≥ 1` whose value `M / 2^sh` lies above `1 / n` by
+    `D / (n · 2^sh)`, `D > 0`, and every accumulator with `2 · |acc| · D < 2^sh` (for int8 / uint8 windows of up to 65536 elements
+    and a 31-bit multiplier: always), NATURAL rounding of `acc · M / 2^sh` IS `acc / n` rounded half away from zero — hence, by
+    `avgpool_round_away_eq_ref_signed`, the reference average. -/
+theorem avgpool_natural_scale_eq_round_away (acc M : Int) (n sh : Nat) (D : Int) (hn : 0 < n) (hsh : 0 < sh)
+    (hD : (n : Int) * M = (2 : Int) ^ sh + D) (hD0 : 0 < D) (hs1 : 2 * acc * D < (2 : Int) ^ sh) (hs2 : 2 * (-acc) * D < (2 : Int) ^ sh) :
+    npuScaleNatural acc M sh = roundAway acc n := by
+  obtain ⟨k, rfl⟩ : ∃ k, sh = k + 1 := ⟨sh - 1, by omega⟩
+  unfold npuScaleNatural roundAway
+  have hk : ¬ (k + 1 = 0) := by omega
+  rw [if_neg hk]
+  have e1 : k + 1 - 1 = k := by omega
+  have e2 : (2 : Int) ^ (k + 1) = 2 * (2 : Int) ^ k := by rw [Int.pow_succ]; omega
+  rw [e1, e2]
+  rw [e2] at hD hs1 hs2
+  have hH := two_pow_pos k
+  generalize (2 : Int) ^ k = H at *
+  have hn' : (0 : Int) < (n : Int) := by omega
+  by_cases hacc : acc ≥ 0
+  · rw [if_pos hacc]
+    have hq := Int.mul_ediv_add_emod (2 * acc + (n : Int)) (2 * (n : Int))
+    have ht0 := Int.emod_nonneg (2 * acc + (n : Int)) (by omega : 2 * (n : Int) ≠ 0)
+    have ht1 := Int.emod_lt_of_pos (2 * acc + (n : Int)) (by omega : (0 : Int) < 2 * (n : Int))
+    generalize (2 * acc + (n : Int)) / (2 * (n : Int)) = r at *
+    generalize (2 * acc + (n : Int)) % (2 * (n : Int)) = t at *
+    obtain ⟨b1, b2⟩ := VelaVerif.Lemmas.Rewrites3.natural_bounds_nonneg acc M n H D r t hn' hH hD hD0 hacc hs1 (by omega) ht0 ht1
+    have key : (acc * M + H) / (2 * H) = r ∧ (acc * M + H) % (2 * H) = acc * M + H - 2 * H * r := by
+      rw [Int.ediv_emod_unique (by omega : (0 : Int) < 2 * H)]
+      refine ⟨by omega, by omega, by omega⟩
+    exact key.1
+  · rw [if_neg hacc]
+    have hq := Int.mul_ediv_add_emod (2 * (-acc) + (n : Int)) (2 * (n : Int))
+    have ht0 := Int.emod_nonneg (2 * (-acc) + (n : Int)) (by omega : 2 * (n : Int) ≠ 0)
+    have ht1 := Int.emod_lt_of_pos (2 * (-acc) + (n : Int)) (by omega : (0 : Int) < 2 * (n : Int))
+    generalize (2 * (-acc) + (n : Int)) / (2 * (n : Int)) = r at *
+    generalize (2 * (-acc) + (n : Int)) % (2 * (n : Int)) = t at *
+    obtain ⟨b1, b2⟩ := VelaVerif.Lemmas.Rewrites3.natural_bounds_neg (-acc) M n H D r t hn' hH hD hD0 (by omega) hs2 (by omega) ht0 ht1
+    have ea : - -acc = acc := by omega
+    rw [ea] at b1 b2
+    have key : (acc * M + H) / (2 * H) = -r ∧ (acc * M + H) % (2 * H) = acc * M + H - 2 * H * (-r) := by
+      rw [Int.ediv_emod_unique (by omega : (0 : Int) < 2 * H)]
+      refine ⟨by omega, by omega, by omega⟩
+    exact key.1
+
+/-- the hypotheses are met by the multiplier the compiler uses for a 2x3 window and equal scales: `quantise_scale(1/6)` is
+    `(1431655765, 33)` (below 1/6: a tie would round DOWN with it), plus one: `6 · 1431655766 = 2^33 + 4` -/
+example : (6 : Int) * 1431655766 = (2 : Int) ^ 33 + 4 ∧ npuScaleNatural 3 1431655766 33 = 1 ∧ npuScaleNatural 3 1431655765 33 = 0 ∧
+    npuScaleNatural (-3) 1431655766 33 = -1 ∧ roundAway (-3) 6 = -1 := by decide
+
 /-- why the zero points must be forced to 0: with the IFM zero point subtracted from the accumulator and added back after the
     rounding, a tie whose raw sum and corrected sum have different signs rounds the other way (elements 1, 2, zero point 5:
     the reference gives 2, the lowered operator 1) — rounding half away from zero is not translation invariant -/
 theorem avgpool_zero_point_kept_witness : roundAway (3 - 5 * 2) 2 + 5 = 1 ∧ avgRound true 3 2 = 2 := by decide
 
 example : convertAvgPoolToConv2d true 2 3 1 4 8 = some ⟨2, 3, 8, 6, 1, 4⟩ ∧ convertAvgPoolToConv2d true 2 3 4 3 8 = none := by decide
+
+/-! ## 17. SHAPE of a statically shaped tensor = constant -/
+
+/-- **When the SHAPE operator is replaced**: exactly when it is a SHAPE operator placed on the NPU whose OFM vector has one
+    entry per IFM dimension -/
+theorem shape_converted_iff (isShape npu : Bool) (idx : Nat) (shape : List Nat) (olen : Nat) (cons : List (Option Nat)) :
+    (convertShapeOp isShape npu idx shape olen cons).isSome = true ↔ (isShape = true ∧ npu = true ∧ shape.length = olen) := by
+  unfold convertShapeOp
+  cases isShape <;> cases npu <;> simp
+  all_goals (by_cases h : shape.length = olen <;> simp [h])
+
+/-- **The constant is the reference's output and the bookkeeping is right**: the values are the IFM shape (what SHAPE computes,
+    one entry per dimension, as many as the OFM holds); the operator's own entries leave the IFM's consumer list, every other
+    entry (other readers, the `None` of a subgraph output) stays, in order. Consumers are told apart by `op_index`: an
+    operator that carried the same `op_index` as the SHAPE operator would be dropped too (hypothesis-free statement: membership
+    is about indices). -/
+theorem shape_const_eq_ref (isShape npu : Bool) (idx : Nat) (shape : List Nat) (olen : Nat) (cons : List (Option Nat)) (s : ShapeConst)
+    (h : convertShapeOp isShape npu idx shape olen cons = some s) :
+    s.values = shape ∧ s.values.length = olen ∧ some idx ∉ s.consumers ∧ (∀ c, c ≠ some idx → (c ∈ s.consumers ↔ c ∈ cons)) ∧
+    s.consumers.Sublist cons := by
+  unfold convertShapeOp at h
+  split at h
+  · exact absurd h (by simp)
+  · split at h
+    · exact absurd h (by simp)
+    · rename_i _ hlen
+      have hs := Option.some.inj h
+      subst hs
+      refine ⟨rfl, by simpa using hlen, ?_, ?_, List.filter_sublist⟩
+      · intro hm
+        rw [List.mem_filter] at hm
+        simpa using hm.2
+      · intro c hc
+        rw [List.mem_filter]
+        constructor
+        · exact fun hm => hm.1
+        · intro hm
+          refine ⟨hm, ?_⟩
+          cases c with
+          | none => rfl
+          | some i =>
+            have : i ≠ idx := fun e => hc (by rw [e])
+            simpa using this
+
+example : convertShapeOp true true 7 [1, 8, 8, 3] 4 [some 3, some 7, none, some 9] = some ⟨[some 3, none, some 9], [1, 8, 8, 3]⟩ := by decide
+
+/-! ## 18. UNPACK = split of the input along the axis, outputs reshaped with a unit dimension -/
+
+theorem prod_insert_one (a b : List Nat) : TfliteRef.prod (a ++ [1] ++ b) = TfliteRef.prod (a ++ b) := by
+  unfold TfliteRef.prod
+  simp [List.foldl_append]
+
+/-- **The reshape moves nothing**: the element of an output at coordinates `pre ++ post` (shape `a ++ b`) sits at the same flat
+    index when the output is given the operator shape `a ++ [1] ++ b` and read at `pre ++ [0] ++ post` -/
+theorem unpack_reshape_flat_eq (b post : List Nat) : ∀ (a pre : List Nat), pre.length = a.length →
+    flatIdx (a ++ [1] ++ b) (pre ++ [0] ++ post) = flatIdx (a ++ b) (pre ++ post) := by
+  intro a
+  induction a with
+  | nil =>
+    intro pre hp
+    have : pre = [] := List.length_eq_zero_iff.mp hp
+    subst this
+    simp [flatIdx]
+  | cons d a' ih =>
+    intro pre hp
+    cases pre with
+    | nil => simp at hp
+    | cons c pre' =>
+      have hp' : pre'.length = a'.length := by simpa using hp
+      have e1 : (d :: a') ++ [1] ++ b = d :: (a' ++ [1] ++ b) := by simp
+      have e2 : (c :: pre') ++ [0] ++ post = c :: (pre' ++ [0] ++ post) := by simp
+      have e3 : (d :: a') ++ b = d :: (a' ++ b) := by simp
+      have e4 : (c :: pre') ++ post = c :: (pre' ++ post) := by simp
+      rw [e1, e2, e3, e4]
+      simp only [flatIdx]
+      rw [ih pre' hp', prod_insert_one]
+
+/-- **What the rewrite stores** for an UNPACK on the NPU along `axis` (negative = counted from the end of the INPUT, whose rank
+    is one more than the outputs'): the desired shape has the unit dimension at the normalised axis, and the 4-D split axis is
+    that axis shifted by the number of leading dimensions the 4-D shape adds; it lies inside the 4-D shape -/
+theorem unpack_axis_spec (axis : Int) (outShape : List Nat) (hr : outShape.length + 1 ≤ 4)
+    (h1 : -((outShape.length : Int) + 1) ≤ axis) (h2 : axis < (outShape.length : Int) + 1) :
+    ∃ pos : Nat, (pos : Int) = (if axis < 0 then (outShape.length : Int) + 1 + axis else axis) ∧ pos ≤ outShape.length ∧
+      rewriteUnpackOutput true true axis (outShape.length + 1) outShape =
+        some ⟨(pos : Int) + (3 - (outShape.length : Int)), outShape.take pos ++ [1] ++ outShape.drop pos,
+              List.replicate (3 - outShape.length) 1 ++ (outShape.take pos ++ [1] ++ outShape.drop pos)⟩ ∧
+      0 ≤ (pos : Int) + (3 - (outShape.length : Int)) ∧ (pos : Int) + (3 - (outShape.length : Int)) < 4 := by
+  refine ⟨(if axis < 0 then (outShape.length : Int) + 1 + axis else axis).toNat, ?_, ?_, ?_, ?_, ?_⟩
+  · split <;> omega
+  · split <;> omega
+  · unfold rewriteUnpackOutput
+    simp only [Bool.and_self, Bool.not_true, Bool.false_eq_true, if_false]
+    have hcast : ((outShape.length + 1 : Nat) : Int) = (outShape.length : Int) + 1 := by omega
+    rw [hcast]
+    generalize hax : (if axis < 0 then (outShape.length : Int) + 1 + axis else axis) = ax
+    have hax0 : 0 ≤ ax := by rw [← hax]; split <;> omega
+    have hax1 : ax ≤ (outShape.length : Int) := by rw [← hax]; split <;> omega
+    have hneg : ¬ (ax < 0) := by omega
+    simp only [if_neg hneg]
+    have hmin : min ax.toNat outShape.length = ax.toNat := by omega
+    rw [hmin]
+    have hlen : (outShape.take ax.toNat ++ [1] ++ outShape.drop ax.toNat).length = outShape.length + 1 := by
+      simp only [List.length_append, List.length_take, List.length_drop, List.length_cons, List.length_nil]; omega
+    congr 1
+    rw [hlen]
+    have e4 : (4 : Int) - ((outShape.length + 1 : Nat) : Int) = 3 - (outShape.length : Int) := by omega
+    have et : ((ax.toNat : Nat) : Int) = ax := by omega
+    rw [e4, et]
+    congr 1
+    unfold full4
+    rw [hlen]
+    have e5 : 4 - (outShape.length + 1) = 3 - outShape.length := by omega
+    rw [e5]
+    apply List.take_of_length_le
+    simp only [List.length_append, List.length_replicate, hlen]; omega
+  · split <;> omega
+  · split <;> omega
+
+example : rewriteUnpackOutput true true (-1) 3 [2, 3] = some ⟨3, [2, 3, 1], [1, 2, 3, 1]⟩ ∧
+    rewriteUnpackOutput true true 0 3 [2, 3] = some ⟨1, [1, 2, 3], [1, 1, 2, 3]⟩ ∧ rewriteUnpackOutput true false 0 3 [2, 3] = none := by decide
 
 end VelaVerif.Props.C01Rewrites3
